@@ -31,7 +31,7 @@ NAMES = ['p', 'div', 'span', 'b', 'li']
 KINDS = ['text', 'text', 'text', 'blank', 'comment', 'cdata', 'pi', 'doctype', 'decl']
 
 
-def gen_tree(rng, iframes, foreign=None):
+def gen_tree(rng, iframes, foreign=None, look_alikes=False):
     """foreign: None, 'markup' (html5lib: <svg><iframe>text</iframe></svg> stays in the SVG namespace) or 'api' (explicit namespaces)."""
     budget = [rng.randint(2, 16)]
     NS_SVG = 'http://www.w3.org/2000/svg'
@@ -65,6 +65,8 @@ def gen_tree(rng, iframes, foreign=None):
     def el(depth):
         budget[0] -= 1
         nm = rng.choice(NAMES + (['iframe'] if iframes and depth > 0 and rng.random() < .3 else []))
+        if look_alikes and depth > 0 and rng.random() < .2:
+            nm = rng.choice(['IFrame', 'IFRAME', 'Iframe'])       # XML is case-sensitive: these are ordinary elements
         e = E(nm)
         if rng.random() < .2:
             e.attrs['class'] = ['x']
@@ -166,7 +168,21 @@ def run_unit(u):
         root = gen_tree(rng, iframes and not foreign, foreign)
         if foreign:
             bump('foreign-iframe:' + how)
-        if foreign == 'api':
+        xhtml = how == 'xml' and rng.random() < .35
+        if xhtml:
+            # XHTML through the XML parser: iframe content is parsed into elements, names are case-sensitive
+            root = gen_tree(rng, True, None, look_alikes=True)
+            html = E('html', {}, [E('body', {}, [root])], nsdecl={'': NS_XHTML})
+
+            def setns(e):
+                e.ns = NS_XHTML
+                for k in e.kids:
+                    if isinstance(k, E):
+                        setns(k)
+            setns(html)
+            tops = [html]
+            bump('xhtml-via-xml')
+        elif foreign == 'api':
             tops = [E('html', {}, [E('body', {}, [root], ns=NS_XHTML)], ns=NS_XHTML)]
         else:
             tops = [root] if rng.random() < .5 else [E('html', {}, [E('body', {}, [root])])]
@@ -189,7 +205,7 @@ def run_unit(u):
                     kinds.append(k)
                 alias = 'contains' if (not own and rng.random() < .1) else None
                 pseudos.append(('contains', own, needles, alias))
-            comp = {'tag': (None, rng.choice(NAMES + ['*', 'iframe', 'body'])) if rng.random() < .6 else None, 'ids': [], 'classes': [],
+            comp = {'tag': (None, rng.choice(NAMES + ['*', 'iframe', 'body', 'IFrame'])) if rng.random() < .6 else None, 'ids': [], 'classes': [],
                     'attrs': [], 'pseudos': pseudos}
             r = rng.random()
             if r < .12:
@@ -255,7 +271,7 @@ def inconclusive(cn, tier):
     out = []
     if cn.get('nontrivial', 0) < (15000 if tier == 'quick' else 500000):
         out.append('too few non-trivial comparisons: %d' % cn.get('nontrivial', 0))
-    for k in ('foreign-iframe:html5lib', 'foreign-iframe:api', 'how:api', 'how:api-xml', 'how:html.parser', 'how:lxml', 'how:html5lib', 'how:xml', 'needle:cut', 'needle:empty', 'needle:hostile'):
+    for k in ('foreign-iframe:html5lib', 'foreign-iframe:api', 'xhtml-via-xml', 'how:api', 'how:api-xml', 'how:html.parser', 'how:lxml', 'how:html5lib', 'how:xml', 'needle:cut', 'needle:empty', 'needle:hostile'):
         if cn.get(k, 0) < 200:
             out.append('%s only %d' % (k, cn.get(k, 0)))
     return out
